@@ -26,8 +26,8 @@ def pair_findings(prog, out):
         env = out.ref_env.get(be, {})
         okset = out.ref_ok.get(be, ())
         if fa is None or fb is None:
-            if be in out.excluded:
-                continue  # an engine / domain exclusion took one export away: nothing to compare on this backend
+            if be in out.excluded or not all(h in (prog.get("probes") or ()) for h in (a, b)):
+                continue  # an engine / domain exclusion took one export away (or a side is not probed): nothing to compare
             if (fa is None) != (fb is None) and be == "pol":
                 yield Finding("equiv:" + be, be, a if fa is None else b, f"{eq}: only one side of the equivalence could be built / exported on {be}", verb="export")
             continue
@@ -86,8 +86,8 @@ def execute(run, prop, shard):
 
             def still(q, f0=f):
                 outs = {st["out"] for st in q["steps"]}
-                if "pair" not in q.get("meta", {}) or not all(h in outs for h in q["meta"]["pair"]):
-                    return False  # both sides of the equivalence must stay in the witness
+                if "pair" not in q.get("meta", {}) or not all(h in outs and h in q.get("probes", ()) for h in q["meta"]["pair"]):
+                    return False  # both sides of the equivalence must stay in the witness (as steps and as probes)
                 oo = runner.run_program(q, opts={"reexport_every": 0})
                 allf = list(oo.findings) + [y for y in pair_findings(q, oo) if not isinstance(y, tuple)]
                 return any(g.kind == f0.kind and g.exc == f0.exc and g.backend == f0.backend for g in allf)
